@@ -264,7 +264,8 @@ fn sphere<T: Tier + Dom<M = Sh>>(rep: &mut Report) {
     }
     // amounts: every 64th, and ladders towards 0, 1/2 and 1 from both sides (a short cut for "the midpoint", "almost
     // there", "hardly started" has its band somewhere on them)
-    let mut ts: Vec<f64> = (0..=64).map(|k| k as f64 / 64.0).collect();
+    let grain = rep.pick(64, 256);
+    let mut ts: Vec<f64> = (0..=grain).map(|k| k as f64 / grain as f64).collect();
     for j in 7..=12 {
         let d = 2f64.powi(-j);
         ts.extend([d, 1.0 - d, 0.5 - d, 0.5 + d]);
@@ -283,7 +284,7 @@ fn sphere<T: Tier + Dom<M = Sh>>(rep: &mut Report) {
     rep.cases(
         "sphere",
         T::NAME,
-        &format!("all {}x{} pairs of rational unit quaternions + {} constructed pairs b = a*R(axis, theta), (cos theta, sin theta) in {:?}; {} amounts (every 64th, ladders towards 0, 1/2, 1); nlerp and slerp", sub.len(), sub.len(), n_con, cosines, ts.len()),
+        &format!("all {}x{} pairs of rational unit quaternions + {} constructed pairs b = a*R(axis, theta), (cos theta, sin theta) in {:?}; {} amounts (every 64th - thorough: 256th -, ladders towards 0, 1/2, 1); nlerp and slerp", sub.len(), sub.len(), n_con, cosines, ts.len()),
         n_pairs + n_con + n_orth,
         Guard::states(100).distinct(100).need("slerp-regime", 20).need("nlerp-regime", 5).need("negative-dot", 20).need("zero-dot", 1),
         |i, ctx| {
